@@ -234,7 +234,29 @@ def k_glue(src: Path, parse) -> str:
                and [ast.unparse(x) for x in gnc.body[1:]] == [
                    "kwargs = {attr: get_data_swapped(col) for attr, col in self._columns.items()}",
                    "_, chunk = DataChunk.create(**kwargs, degrees=self.degrees)", "return chunk"])
+    # new_filereader: which reader class serves which (lower-cased) file extension; anything else raises
+    nf = find_function(trd, "new_filereader")
+    chain = [n for n in _strip_doc(nf.body) if isinstance(n, ast.If)]
+    ext_ok = ast.unparse(_strip_doc(nf.body)[0]) == "ext = Path(path).suffix.lower()" and len(chain) == 1
+    table, node = [], chain[0] if chain else None
+    while ext_ok and isinstance(node, ast.If):
+        t = node.test
+        if not (isinstance(t, ast.Compare) and ast.unparse(t.left) == "ext" and isinstance(t.ops[0], ast.In) and isinstance(t.comparators[0], ast.Tuple)
+                and len(node.body) == 1 and isinstance(node.body[0], ast.Assign) and ast.unparse(node.body[0].targets[0]) == "reader_cls"):
+            ext_ok = False
+            break
+        for e in t.comparators[0].elts:
+            table.append((e.value, ast.unparse(node.body[0].value)))
+        if len(node.orelse) == 1 and isinstance(node.orelse[0], ast.If):
+            node = node.orelse[0]
+        else:
+            ext_ok = ext_ok and len(node.orelse) == 1 and isinstance(node.orelse[0], ast.Raise)
+            node = None
+    if not ext_ok:
+        raise Untranslatable("new_filereader", "extension chain changed")
     return "\n".join([
+        "/-- `new_filereader`: reader class per lower-cased file extension; every other extension raises ValueError -/",
+        "def readerExtensions : List (String × String) := [" + ", ".join(f'("{a}", "{b}")' for a, b in table) + "]",
         "/-- FITS columns reach the chunk through a VALUE-PRESERVING change of byte order: the dtype's byte-order label and the bytes are "
         "flipped together (`view(newbyteorder()).byteswap()`), whatever order astropy delivered (big-endian raw columns, native "
         "arrays for unsigned / scaled columns); every configured column goes through it under its own attribute name -/",
